@@ -70,6 +70,40 @@ def c03_static(tier):
     return 3, done, probs, cov
 
 
+def c03_norace(tier):
+    """The pool-poison family once more in a harness built WITHOUT the race detector (under -race sync.Pool drops items at
+    random, so a buffer of critical capacity does not reliably come back): VIOL / SPECFAIL lines are failing inputs."""
+    import shutil
+    probs, cov = [], {}
+    ok, out, exe = V.build_harness("C03", race=False)
+    if not ok:
+        probs.append(("tie", "harness (non-race build) does not build", {"broken": "harness build (non-race)", "log_tail": out[-2000:]}))
+        return 0, 0, probs, cov
+    rundir = os.path.join(V.BUILD, "run-C03nr-%d" % os.getpid())
+    shutil.rmtree(rundir, ignore_errors=True)
+    os.makedirs(rundir)
+    try:
+        seed = os.environ.get("VERIF_SEED") or "1"
+        rc, out, dt = V.run([exe, "-out", rundir, "-tier", tier, "-seed", seed], env=dict(os.environ, C03_ONLY="poison", VERIF_DIR=V.VERIF), timeout=900)
+        cases = os.path.join(rundir, "cases.txt")
+        n = nviol = 0
+        if rc != 0 or not os.path.exists(cases):
+            probs.append(("tie", "harness (non-race build, pool-poison family) failed rc=%d: %s" % (rc, out[-400:]), {"broken": "harness run (non-race)"}))
+            return 0, 0, probs, cov
+        for line in open(cases, errors="replace"):
+            if line.startswith("VIOL "):
+                nviol += 1
+                if nviol <= 5:
+                    probs.append(("specfail", "implementation violates the oracle (non-race build, pooled buffers of critical capacity): " + line.strip()[:300],
+                                  {"case": line.strip(), "sig": ""}))
+            elif line.startswith("E "):
+                n += 1
+        cov["pool_poison_non_race"] = {"histories": n, "violating_lines": nviol, "wall_s": round(dt, 1)}
+    finally:
+        shutil.rmtree(rundir, ignore_errors=True)
+    return 0, 0, probs, cov
+
+
 def _ints(s):
     return "[]" if s in ("-", "") else "[" + ";".join(s.split(",")) + "]"
 
@@ -110,7 +144,7 @@ CFG = dict(
     race=True,
     casesv=c03_casesv,
     case_tags=("E", "W"),
-    static=[c03_static],
+    static=[c03_static, c03_norace],
     coq_sample={"quick": 120, "thorough": 400},
     harness_timeout={"quick": 600, "thorough": 7200},
     rule=("one case = one history on a tree of loggers (E: derive/log operations in plan order with the bytes each derivation "
